@@ -38,6 +38,11 @@ pub struct Config {
     /// not judged against the canonical chain (the importer does not consult the chain then)
     #[serde(default = "yes")]
     pub neut_noop_on_stale: bool,
+    /// a pruning node whose legacy roots are still missing while new roots are stored (import
+    /// interrupted between the two) is not pruned before the legacy roots have caught up: its next
+    /// import is not given a target below its highest stored block, explicit prunes are skipped
+    #[serde(default = "yes")]
+    pub neut_prune_before_legacy: bool,
     /// runs with pruning: smallest `keep` any pruner is given; forks are at most `keep - 14` deep
     /// (production: keep = k >= deepest possible roll-back). `None`: nobody prunes, forks unbounded
     #[serde(default)]
@@ -383,6 +388,25 @@ impl World {
             }
         }
         let before = Snapshot::read(&self.nodes[n].db);
+        if self.legacy_roots_pending(n, &before) && before.highest().is_some_and(|h| target < h) {
+            self.hit("probe_prune_while_legacy_roots_pending");
+            if self.cfg.neut_prune_before_legacy {
+                self.hit("neutralised_prune_while_legacy_roots_pending");
+                target = before.highest().unwrap_or(target);
+                via = Via::Plain;
+            }
+        }
+        if let Via::Sign(false) = via {
+            // known finding: partial beacon inside a block range the node has already completed
+            let depth = before.highest().map_or(target, |h| h.max(target));
+            if (target + 1) % RANGE != 0 && depth >= range_start(target) + RANGE - 1 {
+                self.hit("probe_partial_beacon_in_complete_range");
+                if self.cfg.neut_sign_depth {
+                    self.hit("neutralised_partial_beacon_in_complete_range");
+                    via = Via::Plain;
+                }
+            }
+        }
         if matches!(via, Via::Sign(_))
             && self.nodes[n].stale
             && before.highest().is_some_and(|h| target <= h)
@@ -535,15 +559,6 @@ impl World {
                     }
                 }
                 let depth = after.highest().unwrap_or(0);
-                let partial = (target + 1) % RANGE != 0;
-                let range_complete_on_node = depth >= range_start(target) + RANGE - 1;
-                if !legacy && partial && range_complete_on_node {
-                    self.hit("probe_partial_beacon_in_complete_range");
-                    if self.cfg.neut_sign_depth {
-                        self.hit("neutralised_partial_beacon_in_complete_range");
-                        return Ok(None);
-                    }
-                }
                 let chain = self.server.lock().unwrap().chain.clone();
                 let want = oracle::sign_root(&chain, target, legacy);
                 self.hit("sim_sign_roots_checked");
@@ -560,6 +575,20 @@ impl World {
                 Ok(Some(root))
             }
         }
+    }
+
+    /// A pruning node holds new block-range roots but no legacy root although the blocks it stores
+    /// contain transactions in a complete range: the legacy importer has not run yet (interrupted
+    /// import); pruning now would use the new roots alone as threshold.
+    fn legacy_roots_pending(&self, n: usize, snap: &Snapshot) -> bool {
+        if self.cfg.prune_min_keep.is_none() || !snap.legacy_roots.is_empty() || snap.roots.is_empty() {
+            return false;
+        }
+        let numbers: BTreeMap<&String, u64> = snap.blocks.iter().map(|b| (&b.2, b.0)).collect();
+        let _ = n;
+        snap.txs.iter().any(|t| {
+            numbers.get(&t.1).is_some_and(|num| snap.roots.iter().any(|r| r.0 <= *num && *num < r.1))
+        })
     }
 
     fn mark_stale_after_fork(&mut self) {
@@ -667,6 +696,14 @@ impl World {
                     return Ok(());
                 }
                 let before = Snapshot::read(&self.nodes[n].db);
+                if self.legacy_roots_pending(n, &before) {
+                    self.hit("probe_prune_while_legacy_roots_pending");
+                    if self.cfg.neut_prune_before_legacy {
+                        self.hit("neutralised_prune_while_legacy_roots_pending");
+                        self.log.push("prune skipped (legacy roots pending)".into());
+                        return Ok(());
+                    }
+                }
                 let res = self.nodes[n].live.as_ref().expect("live").prune(*keep);
                 let after = Snapshot::read(&self.nodes[n].db);
                 self.snaps[n] = after.clone();
@@ -819,7 +856,14 @@ fn quiescence(w: &mut World, at: usize) -> Result<(), Viol> {
     };
     w.log.push("-- quiescence".into());
     // no fault from here on; new blocks arrive
-    w.exec(&Event::Grow { count: 3, seed: 0x51e5ce }).map_err(fix)?;
+    {
+        // (not through `exec`: the cap on the chain length must not stop the chain here)
+        let mut s = w.server.lock().unwrap();
+        s.grow(3, 0x51e5ce);
+        let tip = s.tip_number();
+        drop(s);
+        w.log.push(format!("grow 3 -> tip {tip:?}"));
+    }
     let Some(tip) = w.tip() else { return Ok(()) };
     for n in 0..w.nodes.len() {
         let mut ok = false;
@@ -892,6 +936,7 @@ pub fn gen_config(rng: &mut Rng) -> (Config, GenParams) {
         clamp_targets: rng.chance(0.88),
         neut_back_to_scan_start: rng.chance(0.88),
         neut_noop_on_stale: rng.chance(0.9),
+        neut_prune_before_legacy: rng.chance(0.85),
         prune_min_keep,
     };
     let mut cfg = cfg;
@@ -908,6 +953,7 @@ pub fn gen_config(rng: &mut Rng) -> (Config, GenParams) {
                     cfg.clamp_targets = true;
                     cfg.neut_back_to_scan_start = true;
                     cfg.neut_noop_on_stale = true;
+                    cfg.neut_prune_before_legacy = true;
                     for n in cfg.nodes.iter_mut() {
                         n.chunk = None;
                     }
@@ -919,6 +965,7 @@ pub fn gen_config(rng: &mut Rng) -> (Config, GenParams) {
                     cfg.clamp_targets = false;
                     cfg.neut_back_to_scan_start = false;
                     cfg.neut_noop_on_stale = false;
+                    cfg.neut_prune_before_legacy = false;
                 }
                 _ => {}
             }
